@@ -42,6 +42,7 @@ type offIn struct {
 	BudgetMs  int    `json:"budget_ms"`
 	AuthType  string `json:"auth_type"` // "" = auth; C19 also runs with an auth command the servers do not know
 	ResumeAt  int    `json:"resume_at"` // > 0: the target already holds a checkpoint at the end of this command
+	TargetDB  *int   `json:"target_db"` // target.db (default -1); with it the stream carries a SELECT every few commands
 }
 
 func offRun(in []byte) (interface{}, error) {
@@ -80,6 +81,7 @@ func offRun(in []byte) (interface{}, error) {
 		ends = append(ends, cfg.Start+int64(len(stream)))
 	}
 	add(respCmd("SELECT", "0"))
+	var selectEnds []int
 	for i := 0; i < cfg.Commands; i++ {
 		if rnd.Intn(6) == 0 {
 			stream = append(stream, '\n')
@@ -87,8 +89,12 @@ func offRun(in []byte) (interface{}, error) {
 		if rnd.Intn(7) == 0 {
 			add(respCmd("PING"))
 		}
-		if rnd.Intn(9) == 0 {
-			add(respCmd("SELECT", strconv.Itoa(rnd.Intn(2))))
+		if rnd.Intn(9) == 0 || (cfg.TargetDB != nil && i%3 == 1) {
+			db := rnd.Intn(2)
+			add(respCmd("SELECT", strconv.Itoa(db)))
+			if cfg.TargetDB != nil && db != *cfg.TargetDB {
+				selectEnds = append(selectEnds, len(stream)) // the tool rewrites this one to SELECT <target.db>
+			}
 		}
 		add(respCmd("rpush", "list", strconv.Itoa(i)))
 		pushAt[i] = len(ends) - 1
@@ -110,6 +116,15 @@ func offRun(in []byte) (interface{}, error) {
 		p := cmdPos(d)
 		if p > 0 && p < len(stream) {
 			idleAt = append(idleAt, p)
+		}
+	}
+	if cfg.TargetDB != nil {
+		// the source falls silent right after a SELECT (twice): the tool's batch ends with the rewritten SELECT
+		idleAt = nil
+		for k, p := range selectEnds {
+			if (k == 1 || k == 3) && p < len(stream) {
+				idleAt = append(idleAt, p)
+			}
 		}
 	}
 	runid := "FFeeddccbbaa00112233445566778899aabbCCDD" // (mixed case: an id is an opaque token)
@@ -198,6 +213,9 @@ func offRun(in []byte) (interface{}, error) {
 	conf.Options.ResumeFromBreakPoint = true
 	conf.Options.Parallel = 2
 	conf.Options.TargetDB = -1
+	if cfg.TargetDB != nil {
+		conf.Options.TargetDB = *cfg.TargetDB
+	}
 	conf.Options.HttpProfile = 9320
 	conf.Options.SenderCount = 4
 	conf.Options.SenderSize = 1 << 30
